@@ -384,7 +384,42 @@ class G:
         s = '\t{ int k = %s; struct %s %s = {%s}, arr[2] = {[1] = {%s}};\n' % (self.small(0, 40), st[0], v, ', '.join(items), ', '.join(items[:1]))
         return s + self.dump(st, v) + self.dump(st, 'arr[0]') + self.dump(st, 'arr[1]') + '\t}\n'
 
-    SNIPPETS = ['s_vla', 's_vla_param', 's_ptrptr', 's_arith_runtime', 's_typedef_typeof', 's_alignas', 's_nested_calls', 's_init_exprs', 's_enum', 's_array_sum', 's_array2d', 's_struct_copy', 's_struct_call', 's_bitfield_ops', 's_union', 's_switch', 's_goto', 's_loops', 's_recursion', 's_fptr', 's_varargs', 's_strings',
+
+    def s_addr_const(self):
+        r = self.r; g = self.id('ga'); st = self.id('gs'); n = r.randint(2, 6); k = r.randrange(n)
+        t = r.choice(INTS)
+        self.top.append('static %s %s[%d] = {%s};\nstatic struct { int a; %s b[3]; char c; } %s = {1, {2, 3, 4}, 5};\n' % (t, g, n, ', '.join(str(r.randint(0, 90)) for _ in range(n)), t, st))
+        f = self.id('gf')
+        self.top.append('static int %s(int x) { return x * 2 + 1; }\n' % f)
+        p = self.id('gp')
+        self.top.append('static %s *%s_a = &%s[%d], *%s_b = %s + %d, *%s_c = %s.b + 1, *%s_d = &%s.b[2];\nstatic char *%s_s = "hello" + 2; static const char %s_t[] = "wx" "yz"; static int (*%s_f)(int) = %s, (*%s_g[2])(int) = {%s, &%s};\nstatic long %s_i = sizeof %s + sizeof %s[0]; static char *%s_e = &%s.c; static void *%s_v = &%s;\n'
+                        % (t, p, g, k, p, g, n - 1, p, st, p, st, p, p, p, f, p, f, f, p, g, g, p, st, p, st))
+        return ('\tmix(*%s_a); mix(*%s_b); mix(*%s_c); mix(*%s_d); mix(%s_a - %s); mix(%s_b - %s_a); mix(*%s_s); mix(%s_s[2]); mix(sizeof %s_t); mix(%s_t[3]); mix(%s_f(3)); mix(%s_g[1](4)); mix(%s_i); mix(*%s_e); mix(%s_v == (void *)&%s); mix(%s_d - %s_c);\n'
+                % (p, p, p, p, p, g, p, p, p, p, p, p, p, p, p, p, p, st, p, p))
+
+    def s_float_ops(self):
+        r = self.r
+        a, b = r.choice(['1.5', '0.1', '-2.25', '100.0', '3.0', '1e-3', '1677.0']), r.choice(['0.3', '2.0', '-0.5', '7.0', '10.0', '0.75'])
+        return ('\t{ float f = %sf, g = %sf; double d = %s, e = %s; int i;\n'
+                '\tmixd(f + g); mixd(f - g); mixd(f * g); mixd(f / g); mixd(d + e); mixd(d * e - f); mixd(d / e); mixd(-f); mixd(f + d); mixd((float)(d * e)); mix(f < g); mix(f <= g); mix(d == e); mix(d != e); mix(f > d); mix(!f); mix(!d); mix(f && d); mix(d || 0);\n'
+                '\tfor (i = 0; i < 5; i++) { f = f * 0.5f + g; d = d / 3 + e * i; } mixd(f); mixd(d); f += 1; d -= 1; f *= g; d /= 2; mixd(f); mixd(d); f++; --d; mixd(f++); mixd(--d); mixd(f); mix((int)f); mix((long)d); mix((unsigned char)(int)f);\n'
+                '\t{ double z = 0.0, inf = 1e308 * 10, nan = inf - inf; mix(inf > 1e308); mix(nan == nan); mix(nan != nan); mix(nan < 1); mix(!(nan >= 1)); mix(-z == z); mix(1 / inf == 0); mix(inf == inf); mix(nan ? 1 : 2); } }\n' % (a, b, a, b))
+
+    def s_char_sign(self):
+        r = self.r
+        return ('\t{ char c = (char)%d; signed char s = (signed char)%d; unsigned char u = (unsigned char)%d; short h = (short)%d; unsigned short uh = (unsigned short)%d;\n'
+                '\tmix(c); mix(s); mix(u); mix(h); mix(uh); mix(c >> 1); mix(s >> 2); mix(u >> 3); mix(c < 0); mix(s < u); mix(c == s); mix((unsigned)c); mix((unsigned)s); mix((int)u); mix(c * 2); mix(u * 300); mix(h * h); mix(uh * 3); mix(-u); mix(~u); mix(~c); mix(!s);\n'
+                '\tc += 100; s -= 100; u += 200; h *= 3; uh -= 70000; mix(c); mix(s); mix(u); mix(h); mix(uh); c = s; u = c; mix(u); s = u; mix(s); h = u; uh = s; mix(h); mix(uh); mix(sizeof(c + c)); mix(sizeof(u + 1L)); mix((char)300); mix((unsigned char)-1); mix((short)70000); }\n'
+                % (r.randint(-128, 255), r.randint(-128, 127), r.randint(0, 255), r.randint(-40000, 40000), r.randint(0, 70000)))
+
+    def s_assign_chain(self):
+        r = self.r; ts = [r.choice(INTS + ['double', 'float', '_Bool']) for _ in range(4)]
+        v = r.choice(['100', '1', '3.75', '0.25', '7', '127'])
+        mx = ['mixd' if t in ('double', 'float') else 'mix' for t in ts]
+        return ('\t{ %s a; %s b; %s c; %s d;\n\ta = b = c = d = %s; %s(a); %s(b); %s(c); %s(d); d = (c = %s, c + 1); %s(d); a = (b = 5) + (c = 6); %s(a); %s((a = 2, b = 3, a + b)); a = b == c; %s(a); }\n'
+                % (ts[0], ts[1], ts[2], ts[3], v if not all(t not in ('double', 'float') for t in ts) or '.' not in v else '7', mx[0], mx[1], mx[2], mx[3], self.small(0, 9), mx[3], mx[0], 'mix', mx[0])).replace('mix((a = 2, b = 3, a + b));', 'mixd((double)(a = 2, b = 3, a + b));')
+
+    SNIPPETS = ['s_addr_const', 's_float_ops', 's_char_sign', 's_assign_chain', 's_vla', 's_vla_param', 's_ptrptr', 's_arith_runtime', 's_typedef_typeof', 's_alignas', 's_nested_calls', 's_init_exprs', 's_enum', 's_array_sum', 's_array2d', 's_struct_copy', 's_struct_call', 's_bitfield_ops', 's_union', 's_switch', 's_goto', 's_loops', 's_recursion', 's_fptr', 's_varargs', 's_strings',
                 's_compound_literal', 's_once', 's_logic', 's_conversions', 's_static_local', 's_ptr_struct_array', 's_many_args', 's_ternary_types']
 
     def program(self, nblocks=12):
